@@ -2,4 +2,5 @@ import ArroyProofs.AuditCmd
 import ArroyProofs.Properties.C05
 import ArroyProofs.Properties.C05Build
 import ArroyProofs.Properties.Reachable
+import ArroyProofs.Properties.C05History
 #audit Arroy.C05
